@@ -129,6 +129,10 @@ impl Pair {
     }
 }
 impl Group for Pair {
+    // a real server / real sockets with read timeouts: a failure counts if it shows again when the same case is re-run
+    fn timing_sensitive(&self) -> bool {
+        true
+    }
     fn name(&self) -> &'static str {
         "c20.pair"
     }
@@ -211,6 +215,10 @@ impl MuxStreams {
     }
 }
 impl Group for MuxStreams {
+    // a real server / real sockets with read timeouts: a failure counts if it shows again when the same case is re-run
+    fn timing_sensitive(&self) -> bool {
+        true
+    }
     fn name(&self) -> &'static str {
         "c20.mux"
     }
@@ -445,6 +453,10 @@ impl HostsTls {
     }
 }
 impl Group for HostsTls {
+    // a real server / real sockets with read timeouts: a failure counts if it shows again when the same case is re-run
+    fn timing_sensitive(&self) -> bool {
+        true
+    }
     fn name(&self) -> &'static str {
         "c20.hosts"
     }
